@@ -92,6 +92,13 @@ func (g *G) readerOf(m *grl.Model, pi *pathInfo, want bool) *grl.Expr {
 		}
 	case grl.TString:
 		sv, _ := v0.(string)
+		if len(pi.p.Steps) == 1 && pi.p.Steps[0].Field == "S" && (pi.p.Root == "F" || pi.p.Root == "G") && g.R.Chance(1, 3) {
+			// read the field through a method whose call text carries a string literal with a space in it; the
+			// change is announced with Forget naming exactly that text (added by AnnounceFieldMethods)
+			pre := g.R.PickStr("x y", "New York", "a")
+			core = grl.Bin("==", &grl.Expr{K: "call", Path: grl.P(pi.p.Root), Fn: "LabelOf", Args: []*grl.Expr{grl.LitStr(pre)}}, grl.LitStr(pre+":"+sv))
+			break
+		}
 		switch g.R.Intn(3) {
 		case 0:
 			core = grl.Bin("==", pe, grl.LitStr(sv))
@@ -344,7 +351,12 @@ func (g *G) retractTemplate(p *grl.Program, facts *grl.Facts) bool {
 
 // naturalAction returns an action that fails on most fact states (C14 natural action faults).
 func (g *G) naturalAction() *grl.Action {
-	switch g.R.Intn(12) {
+	switch g.R.Intn(13) {
+	case 12: // a JSON object takes string keys only
+		if g.R.Chance(1, 2) {
+			return &grl.Action{K: "assign", Path: grl.P("J").Idx(grl.PathE(grl.P("F.I"))), Op: "=", E: grl.LitInt(95)}
+		}
+		return &grl.Action{K: "assign", Path: grl.P("J.o").Idx(grl.LitFloat(2.5)), Op: "=", E: grl.LitInt(94)}
 	case 10: // map keys of the wrong kind
 		switch g.R.Intn(3) {
 		case 0:
@@ -387,6 +399,9 @@ func (g *G) applyTemplate(property string, p *grl.Program, facts *grl.Facts) str
 		if g.R.Chance(1, 8) && g.nanTemplate(p, facts) {
 			return "nan"
 		}
+		if g.R.Chance(1, 8) && g.jsonKeyTemplate(p, facts) {
+			return "json-key"
+		}
 		if g.R.Chance(1, 4) && g.selectorTemplate(p, facts) {
 			return "selector"
 		}
@@ -396,6 +411,9 @@ func (g *G) applyTemplate(property string, p *grl.Program, facts *grl.Facts) str
 	case "C02":
 		if g.R.Chance(1, 10) && g.nanTemplate(p, facts) {
 			return "nan"
+		}
+		if g.R.Chance(1, 8) && g.jsonKeyTemplate(p, facts) {
+			return "json-key"
 		}
 		if g.R.Chance(1, 4) && g.selectorTemplate(p, facts) {
 			return "selector"
@@ -500,6 +518,45 @@ func (g *G) breakTemplate(p *grl.Program, facts *grl.Facts) bool {
 		&grl.Rule{Name: "Bk", Salience: sal(9), When: grl.LitBool(true), Then: []*grl.Action{breaker, {K: "retract", Name: "Bk"}}},
 		&grl.Rule{Name: "Vc", Salience: sal(int64(g.R.Intn(3))), When: grl.Bin(op, left, right),
 			Then: []*grl.Action{{K: "assign", Path: grl.P(f + ".AS").Idx(grl.LitInt(2)), Op: "+=", E: grl.LitStr("vc")}, {K: "retract", Name: "Vc"}}})
+	return true
+}
+
+// jsonKeyTemplate: a JSON member is read through a COMPUTED key (J[G.S2] with G.S2 == "n") and written by
+// its name (J.n += 1) or through a literal selector: one place, reached by a key the text does not show.
+func (g *G) jsonKeyTemplate(p *grl.Program, facts *grl.Facts) bool {
+	if facts.G == nil || len(facts.J) == 0 {
+		return false
+	}
+	for _, o := range facts.Omit {
+		if o == "J" || o == "G" {
+			return false
+		}
+	}
+	facts.G.S2 = "n"
+	m := &grl.Model{S: grl.NewState(facts)}
+	v0, err := m.Eval(grl.PathE(grl.P("J.n")))
+	if err != nil {
+		return false
+	}
+	n0 := grlFloat(v0)
+	read := grl.PathE(grl.P("J").Idx(grl.PathE(grl.P("G.S2"))))
+	var dest *grl.Path
+	if g.R.Chance(2, 3) {
+		dest = grl.P("J.n")
+	} else {
+		dest = grl.P("J").Idx(grl.LitStr("n"))
+	}
+	if g.R.Chance(1, 2) {
+		// counts up while below a bound: stops when the written member crosses it (C01)
+		p.Rules = append(p.Rules, &grl.Rule{Name: "Jk", Salience: sal(int64(g.R.Intn(3))), When: grl.Bin("<", read, valueLit(n0+2)),
+			Then: []*grl.Action{{K: "assign", Path: dest, Op: "+=", E: grl.LitInt(1)}}})
+	} else {
+		// another rule makes it true (C02)
+		p.Rules = append(p.Rules,
+			&grl.Rule{Name: "Jw", Salience: sal(5), When: grl.LitBool(true), Then: []*grl.Action{{K: "assign", Path: dest, Op: "=", E: valueLit(n0 + 10)}, {K: "retract", Name: "Jw"}}},
+			&grl.Rule{Name: "Jk", Salience: sal(1), When: grl.Bin(">", read, valueLit(n0+5)),
+				Then: []*grl.Action{{K: "assign", Path: grl.P("F.AS").Idx(grl.LitInt(1)), Op: "+=", E: grl.LitStr("jk")}, {K: "retract", Name: "Jk"}}})
+	}
 	return true
 }
 
